@@ -158,11 +158,18 @@ def fk_variants(screws, M, theta, lib_fk):
     tiny = [j for j in range(len(theta)) if abs(wrapped[j]) < 1e-6 and wrapped[j] != 0.0]
     if tiny:
         for mask in range(1, 2 ** len(tiny)):
-            t2 = theta.copy()
-            for b, j in enumerate(tiny):
-                if mask >> b & 1:
-                    t2[j] = t2[j] - wrapped[j]      # drop the tiny part, keep the full turns
-            yield poe(screws, M, t2)
+            # Modern Robotics' MatrixExp6 on a twist with |omega*theta| < 1e-6 returns (identity rotation, v*theta):
+            # the rotation is dropped, the linear part of the twist is kept.  Reproduce exactly that for the chosen joints.
+            T = np.eye(4)
+            for i in range(screws.shape[1]):
+                b = tiny.index(i) if i in tiny else -1
+                if b >= 0 and (mask >> b & 1):
+                    E = np.eye(4)
+                    E[:3, 3] = screws[3:, i] * wrapped[i]
+                    T = T @ E
+                else:
+                    T = T @ exp_twist(screws[:, i], float(theta[i]))
+            yield T @ M
 
 
 def ang_diff(a, b):
